@@ -50,6 +50,11 @@ Explains(e) ==
   /\ NoPanic(e)
   /\ \/ e.op = "ser" /\ e.ty \in StringTypes /\ Marks(e) /\ e.json = JsonOf(e)
      \/ e.op = "serde" /\ e.ty \in (StringTypes \cup {"dur"}) /\ e.fmt \in {"json", "bin"} /\ Marks(e) /\ Back(e)
+     \* hand-made (seconds, nanoseconds) payloads: read exactly when the pair is the normal form of a duration in range, in both formats
+     \/ e.op = "dur_de" /\ LET s == J(e.secs)  n == J(e.nanos)
+                                v == Add(Mul1e9(s), n)
+                                ok == ~n.neg /\ Lt(n, FromInt(1000000000)) /\ Leq(Abs(v), Mul1e6(I64Max)) IN
+                            IF ok THEN e.bin = [ok |-> [d |-> e.bin.ok.d]] /\ J(e.bin.ok.d) = v /\ J(e.json.ok.d) = v ELSE Has(e.bin, "err") /\ Has(e.json, "err")
      \/ e.op = "ts" /\ Module(e) /\ ValidNdt([e.v EXCEPT !.frac = e.v.frac % NSu]) /\ TsOk(e)
      \/ e.op = "ts_none" /\ Module(e) /\ e.opt = 1 /\ e.ser = [none |-> 1] /\ e.json_back = [none |-> 1] /\ e.bin_back = [none |-> 1]
      \/ e.op = "ts_de" /\ Module(e) /\ e.fmt \in {"json", "bin"} /\ TsDeOk(e)
